@@ -119,6 +119,10 @@ class MultiplexForecaster(
                 " Valid selected_forecaster parameters: {}".format(component_names)
             )
 
+    def _get_fitted_component_forecasters(self):
+        forecaster = getattr(self, "_forecaster", None)
+        return [forecaster] if forecaster is not None and forecaster.is_fitted else []
+
     def _set_forecaster(self):
         self._check_selected_forecaster()
         if self.selected_forecaster is not None:
